@@ -324,7 +324,7 @@ impl Check for C20 {
          subnormals, +-MAX, 2^24 neighbours; 1 line in 7 is a point at the origin in some spelling of zero) and random bit patterns in shortest / exponent / debug / explicit-plus notation, colours 0..255 \
          (one enumerated file holds all 256 values in every channel), extra columns, short lines, LF or CRLF, single-space separated; converted by \
          e57-from-xyz then e57-to-xyz (real processes): same number of lines as input lines with >= 6 columns, in order, each coordinate parses to \
-         an f64 equal to the input f32, colours equal. E57 files from the writer generator (1 in 4 with its XML turned into a single-line document by the finalize transformer), intact and with damaged pages: e57-check-crc exits 0 \
+         an f64 equal to the input f32, colours equal. E57 files from the writer generator (1 in 4 with its XML turned into a single-line document by the finalize transformer), intact and with damaged pages (bit flips anywhere, the 48-byte file header included): e57-check-crc exits 0 \
          iff every page is valid by e57ref (single files and directories of 2..4 files); e57-extract-xml stdout = E57Reader::raw_xml = e57ref's XML bytes; e57-unpack: metadata.xml = XML, each \
          CSV row = Display of the raw values, each image file = the blob bytes. Non-trivial: XYZ file with > 1 packet of points or a special \
          float, E57 file with a damaged page, several clouds or images."
@@ -399,7 +399,7 @@ impl Check for C20 {
                 program.end = prog::End::FinalizeMinified { keep_first: s.flag() };
             }
             let nd = s.weighted(&[2, 2, 1]);
-            let damage = (0..nd).map(|_| Damage::Unsealed { page: s.byte(), byte: s.u16(), bit: s.byte() }).collect();
+            let damage = (0..nd).map(|_| if s.chance(1, 4) { Damage::HeaderBit { byte: s.byte(), bit: s.byte() } } else { Damage::Unsealed { page: s.byte(), byte: s.u16(), bit: s.byte() } }).collect();
             Case::E57 { program, damage }
         }
     }
